@@ -1,5 +1,5 @@
 """C07 — output is closed under references for every selection of operations."""
-import json
+import json, re
 import vlib
 from checks.c09 import vlib_corpus
 from graphgen import *
@@ -9,6 +9,8 @@ SCOPES = [("default", {}, None, None), ("all", {"all_schemas": True}, None, None
 
 def prepare(case):
     d = case["in"]
+    if "gops" in d or "dbase" in d:
+        return prepare_multi(case)
     if "position" in d:
         spec = position_spec(d["position"], d["tkind"])
     else:
@@ -23,6 +25,92 @@ def prepare(case):
     base["ops"] = selected_ops(spec, sc[2], sc[3])
     base["path_params"] = [item.get("parameters", []) for item in spec["paths"].values() if any(op in base["ops"] for m, op in item.items() if m != "parameters")]
     return {"op": case["op"], "in": dict(d, **base)}
+
+
+def prepare_multi(case):
+    """documents with several operations: groups of equal response shapes / discriminated bases whose mapping
+    is spelled with bare names or pointers.  The selection is part of the primary data (`scope` + `sel`)."""
+    d = case["in"]
+    if "gops" in d:
+        ids = [g[0] for g in d["gops"]]
+        assert len(ids) >= 1 and len(set(ids)) == len(ids) and all(re.fullmatch(r"[a-z][a-z0-9]*", i) for i in ids)
+        assert all(g[1] is None or re.fullmatch(r"(arr:|\+404:)?[A-Z][A-Za-z0-9]*", g[1]) for g in d["gops"])
+        assert all(re.fullmatch(r"[A-Z][A-Za-z0-9]*", n) and st in INLINE_STYLES for n, st in (d.get("inl") or {}).items())
+        spec = groups_spec(d)
+    else:
+        assert re.fullmatch(r"[A-Z][A-Za-z0-9]*", d["dbase"]) and d["children"]
+        names = [c[0] for c in d["children"]]
+        assert len(set(names + [d["dbase"], "Holder"])) == len(names) + 2 and all(re.fullmatch(r"[A-Z][A-Za-z0-9]*", n) for n in names)
+        assert all(c[1] in ("bare", "ptr") and isinstance(c[2], bool) for c in d["children"])
+        spec = discmap_spec(d)
+    scope = d.get("scope", "default")
+    assert scope in ("default", "all", "only", "exclude") and d.get("mode", "client-mod") in ("client-mod", "server-mod")
+    sel = d.get("sel") or []
+    assert all(x in op_ids(spec) for x in sel) and (scope not in ("only", "exclude") or sel)
+    only, exclude = (sel if scope == "only" else None), (sel if scope == "exclude" else None)
+    base = {"judges": ["closed", "orphans"], "spec": spec, "cfg": {"all_schemas": True} if scope == "all" else {}, "only": only, "exclude": exclude, "mode": d.get("mode", "client-mod")}
+    base["schemas"] = spec["components"]["schemas"]
+    base["ops"] = selected_ops(spec, only, exclude)
+    base["path_params"] = []
+    base["sel_ids"] = [op["operationId"] for op in base["ops"]]
+    return {"op": case["op"], "in": dict(d, **base)}
+
+
+def selections(ids, r, quick):
+    """(scope, sel) pairs: default, --all-schemas, --exclude of every single operation and of some pairs, --only of
+    every subset that leaves one operation out and of some smaller ones"""
+    sels = [("default", None), ("all", None)]
+    rest = [("exclude", [i]) for i in ids] + [("only", [j for j in ids if j != i]) for i in ids]
+    for _ in range(4):
+        k = r.randint(1, max(1, len(ids) - 1))
+        rest.append((r.choice(["only", "exclude"]), sorted(r.sample(ids, k))))
+    rest = [x for x in rest if x[1]]
+    return sels + (r.sample(rest, min(3, len(rest))) if quick else rest)
+
+
+def multi_cases(ctx):
+    r = ctx.rng
+    out = []
+    def add(d, ids):
+        for scope, sel in selections(ids, r, ctx.quick):
+            for op in ("graph.emit", "graph.analyze"):
+                if op == "graph.analyze" and scope == "all":
+                    continue
+                dd = dict(d, scope=scope, mode=r.choice(["client-mod", "client-mod", "server-mod"]))
+                if sel is not None:
+                    dd["sel"] = sel
+                out.append({"op": op, "in": dd})
+    # (a) four operations, every assignment to two response shapes (all interleavings of the two groups), both
+    # orders of the operation ids, inline member types on either shape
+    ids4 = ["opa", "opb", "opc", "opd"]
+    for bits in range(16):
+        shapes = [("Alpha", "Beta")[(bits >> i) & 1] for i in range(4)]
+        for perm in (ids4, ids4[::-1]):
+            for inl in ({"Alpha": "both", "Beta": "none"}, {"Alpha": "none", "Beta": "enum"}):
+                add({"gops": [[perm[i], shapes[i]] for i in range(4)], "inl": inl}, perm)
+    # five/six operations over three shapes, bodyless ones and variations of a shape in between
+    pool = ["Alpha", "Beta", "Gamma", None, "arr:Alpha", "+404:Beta"]
+    for _ in range(24 if ctx.quick else 400):
+        n = r.randint(5, 6)
+        ids = r.sample(["opa", "opb", "opc", "opd", "ope", "opf", "op10", "op2"], n)
+        two = r.sample(pool[:3], 2)
+        shapes = [two[0], two[1], two[0], two[1]] + [r.choice(pool) for _ in range(n - 4)]
+        r.shuffle(shapes)
+        inl = {s: r.choice(INLINE_STYLES) for s in ("Alpha", "Beta", "Gamma") if any(x and x.endswith(s) for x in shapes)}
+        add({"gops": [[ids[i], shapes[i]] for i in range(n)], "inl": inl, "qenum": r.sample(ids, r.randint(0, 2))}, ids)
+    # (b) discriminated base, two children: every combination of spelling x "child has an operation of its own"
+    for sp0 in ("bare", "ptr"):
+        for sp1 in ("bare", "ptr"):
+            for own0 in (False, True):
+                for own1 in (False, True):
+                    for holder in (False, True):
+                        d = {"dbase": "Pet", "children": [["Cat", sp0, own0], ["Dog", sp1, own1]], "holder": holder}
+                        add(d, op_ids(discmap_spec(d)))
+    for _ in range(10 if ctx.quick else 200):
+        kids = r.sample(["Cat", "Dog", "Eel", "Fox"], 3)
+        d = {"dbase": r.choice(["Pet", "Animal"]), "children": [[k, r.choice(["bare", "ptr"]), r.random() < 0.6] for k in kids], "holder": r.random() < 0.3}
+        add(d, op_ids(discmap_spec(d)))
+    return out
 
 
 def cases(ctx):
@@ -62,7 +150,7 @@ def run(ctx):
             ctx.leanchecker("Oas3Model.Props.C07")
     ctx.prepare = prepare
     if driver_ok and ctx.build_harness(["k_gen"]):
-        allc = vlib_corpus(ctx) + cases(ctx)
+        allc = vlib_corpus(ctx) + cases(ctx) + multi_cases(ctx)
         B = 300
         for i in range(0, len(allc), B):
             ctx.classify(ctx.evaluate(allc[i:i + B]), tie="K+E")
@@ -71,4 +159,4 @@ def run(ctx):
     return ctx.finish(
         checker_cmd="lake build Oas3Model.Props.C07 && #print axioms on every theorem" + ("" if ctx.quick else " && leanchecker"),
         trusted_base=vlib.TRUSTED_BASE + ["petgraph DFS/SCC are replaced in the model by a checked closure (proved sound and minimal) and compared with the real results on every case", "syn-based extraction of defined items and mentioned type paths; external crates recognised by a prefix allow-list"],
-        rule="the 12 reference positions x 10 kinds of referenced schema x {default, --all-schemas, --only, --exclude} matrix of the quantifier (all 480 thorough; default + 1 sampled scope quick) + random compositions of 2-5 schemas over the 8 edge kinds; K: SchemaRegistry dependency map / cyclic set / reachable set vs the model; E: emitted files parsed with syn, every mentioned type name must be defined exactly once, every emitted type must be used by a selected operation; non-trivial = >=1 schema; distinct by input hash")
+        rule="the 12 reference positions x 10 kinds of referenced schema x {default, --all-schemas, --only, --exclude} matrix of the quantifier (all 480 thorough; default + 1 sampled scope quick) + random compositions of 2-5 schemas over the 8 edge kinds + documents with 4-6 operations whose responses repeat in two or more interleaved groups (all 16 assignments of 4 operations to two shapes x id order x inline member types; random 5-6 operation documents) and discriminated bases whose mapping is spelled with bare names / pointers / both, each under default, --all-schemas, --exclude and --only subsets (model: the surviving response enums); K: SchemaRegistry dependency map / cyclic set / reachable set vs the model; E: emitted files parsed with syn, every mentioned type name must be defined exactly once, every emitted type must be used by a selected operation; non-trivial = >=1 schema; distinct by input hash")
